@@ -365,3 +365,17 @@ pub fn deque_of<T: Clone>(data: &[T], rot: usize) -> std::collections::VecDeque<
 pub fn deque_is_wrapped<T>(d: &std::collections::VecDeque<T>) -> bool {
     !d.as_slices().1.is_empty()
 }
+
+/// true when every non-null value of every series is an integer of moderate size
+pub fn int_valued(xs: &[&Series]) -> bool {
+    for s in xs {
+        for v in s.iter() {
+            if let Some(f) = v {
+                if f.fract() != 0.0 || f.abs() >= 1e6 {
+                    return false;
+                }
+            }
+        }
+    }
+    true
+}
